@@ -140,7 +140,7 @@ func isIDContinue(r rune) bool {
 	if r < utf8.RuneSelf {
 		return r >= 'a' && r <= 'z' || r >= 'A' && r <= 'Z' || r == '$' || r == '_' || r >= '0' && r <= '9'
 	}
-	if r == 0x200C || r == 0x200D {
+	if r == 0x200C || r == 0x200D || r == 0x30FB || r == 0xFF65 { // the last two: Other_ID_Continue since Unicode 15.1
 		return true
 	}
 	return unicode.IsLetter(r) || unicode.Is(unicode.Nl, r) || unicode.Is(unicode.Other_ID_Start, r) ||
